@@ -693,14 +693,19 @@ pub fn gen_struct(rng: &mut Rng, class: Class) -> Item {
 
     // members
     if item.shape != Shape::Unit {
-        let n = if huge { rng.range(33, 70) } else if big { rng.range(7, 10) } else { rng.range(1, 7) };
+        // "wide": member counts just below, at and above the sizes at which an implementation
+        // would switch strategy (a small-vector capacity, a "large input" threshold)
+        let wide = !huge && rng.chance(1, 60);
+        let n = if wide { *rng.pick(&[16usize, 17, 32, 33, 64, 65, 128, 129, 130, 256, 257, 300]) } else if huge { rng.range(33, 70) } else if big { rng.range(7, 10) } else { rng.range(1, 7) };
+        let huge = huge || wide;
         let huge_names: Vec<String> = (0..n).map(|i| format!("f{}", i)).collect();
         let names: Vec<&str> = if huge { huge_names.iter().map(|s| s.as_str()).collect() } else { pick_distinct(rng, &FIELD_NAMES, n) };
         let named_cp = item.shape == Shape::Named;
         let mut repeat_open = false;
         for (i, name) in names.iter().enumerate() {
             let mut attrs: Vec<String> = Vec::new();
-            let r = rng.below(12);
+            // (in a wide item only the first few members carry instructions: the point is the count)
+            let r = if wide && i >= 6 { 11 } else { rng.below(12) };
             match r {
                 0 | 1 | 2 => attrs.push(member_instr(rng, &cps, named_cp, i, fallible_any)),
                 3 => {
@@ -841,8 +846,10 @@ pub fn gen_enum(rng: &mut Rng, class: Class) -> Item {
     }
     item.type_attrs = wrap(bodies, rng).into_iter().map(|a| a.replace("#[o2o(o2o(allow_unknown))]", "#[o2o(allow_unknown)]").replace("o2o(allow_unknown)", "allow_unknown").replace("#[allow_unknown]", "#[o2o(allow_unknown)]")).collect();
 
-    let n = rng.range(1, 6);
-    let names = pick_distinct(rng, &VARIANT_NAMES, n);
+    let wide = rng.chance(1, 100);
+    let n = if wide { *rng.pick(&[16usize, 17, 32, 33, 64, 65, 128, 129, 130, 256, 257]) } else { rng.range(1, 6) };
+    let wide_names: Vec<String> = (0..n).map(|i| format!("V{}", i)).collect();
+    let names: Vec<&str> = if wide { wide_names.iter().map(|s| s.as_str()).collect() } else { pick_distinct(rng, &VARIANT_NAMES, n) };
     let mut lit = 0;
     let mut repeat_open = false;
     for name in names {
